@@ -290,4 +290,25 @@ PROPS.update({
     },
 })
 
+PROPS.update({
+    "C20": {
+        "coq": "Properties/C20.v",
+        "pinchecks": ["PinChecks/PcLocks.v", "PinChecks/PcBody_fmacros.v", "PinChecks/PcBody_frbacapi.v", "PinChecks/PcBody_enf.v", "PinChecks/PcBody_fcachedenforcer.v"],
+        "gen": "c20",
+        "partial": "PARTIAL by nature: the theorems are about an abstract small-step semantics of two writer-preferring, non-re-entrant read-write locks and the "
+                   "thread programs the code follows; that rustc / parking_lot / mini-moka / rhai implement those semantics (memory model, fairness, Send/Sync "
+                   "soundness) and the actual absence of hangs at run time are exercised by the stress run under a watchdog, not proved",
+        "level_text": "Coq theorems over Model/Locks.v for ANY number of threads, any call lists and any interleaving: the protocol invariant (c20_inv_reachable: lock "
+                      "bookkeeping, no re-acquisition, no acquisition while holding the role-manager lock), deadlock freedom (c20_progress, c20_stuck_is_done), "
+                      "termination (c20_no_infinite_run, c20_fair_completes), and linearisability of enforce under the outer read lock: all reads of one enforce call "
+                      "see one version with no management call in progress, versions are prefixes of the serial write order (c20_seen_structure, "
+                      "c20_reads_are_snapshots, c20_no_writer_single_thread); the shape 'every guard is a statement temporary' is pinned to the source; "
+                      "c20_nested_read_deadlocks shows what the pin protects. Stress: 2-16 threads against a serial oracle under a watchdog",
+        "level_note": "trusted: Coq kernel, harness; NOT verified: the real lock/cache/engine implementations and scheduler (stress-tested only)",
+        "explanation": "theorems c20_* over an abstract lock semantics; stress run with serial oracle",
+        "assumptions": ["handle threads only READ the role manager (a handle thread that writes links concurrently breaks per-decision linearisability by design)",
+                        "handle reads are atomic per read only (c20_handle_sees_in_call)"],
+    },
+})
+
 NOT_CLAIMED = {}
